@@ -20,6 +20,7 @@ JudgeFamily(e) ==
     LET m == e.members
         variants == \A j \in 1..Len(m) : SameBag(m[j].l, m[1].l) /\ SameBag(m[j].r, m[1].r)
     IN   Fails(e, "HARNESS_VariantsAreSameReaction", variants)
+      \o Fails(e, "NormalizeDoesNotRaise", \A j \in 1..Len(m) : m[j].raised = "")
       \o Fails(e, "Idempotent", \A j \in 1..Len(m) : m[j].idem)
       \o Fails(e, "SameNormalForm", \A j \in 1..Len(m) : m[j].out = m[1].out)
       \o Fails(e, "DRIFT_NormalFormKeepsMolecules", \A j \in 1..Len(m) : m[j].out_same_molecules)
